@@ -318,6 +318,10 @@ func (w *c09World) opFlush(c *c09Case, e, sid int) {
 		if !c09Wait(func() bool { return atomic.LoadUint64(&peerSess.stats.fallbackReadCount) > fbBefore }, c09WaitBound) {
 			w.fatal = "flush: the fallback data did not reach the peer within the bound"
 		}
+		// 62f988f: handleFallbackData first consumes everything queued towards the peer
+		if !w.drained(e) {
+			w.fatal = "flush: the peer did not drain the queue within the bound"
+		}
 		if peerPend >= 0 {
 			if !c09Wait(func() bool { return c09PendLen(peerStream) > peerPend }, c09WaitBound) {
 				w.fatal = "flush: the fallback data did not reach the peer stream within the bound"
@@ -435,11 +439,12 @@ func (w *c09World) opClose(c *c09Case, e, sid int) {
 	s.Close()
 	w.closed[[2]int{e, sid}] = true
 	if wasOpen && qfull {
-		w.feat["close-notified-over-socket"] = true // queue full: typeStreamClose event, nobody is woken
-		time.Sleep(3 * time.Millisecond)
+		// typeStreamClose event over the socket: nobody is woken, but since 62f988f handleStreamClose
+		// consumes everything queued towards the peer before it half-closes the stream
+		w.feat["close-notified-over-socket"] = true
 	}
 	if wasOpen {
-		if !qfull && !w.drained(e) {
+		if !w.drained(e) {
 			w.fatal = "close: the peer did not drain the queue within the bound"
 		}
 		// the peer's stream (if it exists and is still open) becomes half-closed
@@ -448,6 +453,8 @@ func (w *c09World) opClose(c *c09Case, e, sid int) {
 			if !c09Wait(func() bool { return !ps.IsOpen() }, c09WaitBound) {
 				w.fatal = "close: the close notification did not reach the peer stream within the bound"
 			}
+		} else if qfull {
+			time.Sleep(3 * time.Millisecond) // nothing observable left: the peer has no such stream
 		}
 	}
 	w.rec(c, c09Op{Op: "close", E: e, Sid: sid})
